@@ -1,8 +1,8 @@
-import Secp.Proofs.WrapperTies
+import Secp.Proofs.WrapperTiesN
 import Secp.Proofs.Lawful
-import Secp.Proofs.Reduce
-import Secp.Proofs.AddSub
-import Secp.Proofs.Bits64
+import Secp.Proofs.ReduceN
+import Secp.Proofs.AddSubN
+import Secp.Proofs.Bits64N
 import Secp.Proofs.FieldP
 import Secp.Hand.Field
 /-!
